@@ -882,6 +882,23 @@ def _run(ck, quick, rng, replay, base):
         for (kind, key, c, actual), v in zip(tmeta, vals):
             if kind == "dir":
                 d = compare_dir(v, actual)
+                # direct oracle on contents: the model's tree is built from the Python the implementation's own
+                # pipeline emitted for each source (stages endpoint); an output file on disk that differs from it
+                # does not hold the emitted Python - a concrete violation of the mirrored layout
+                if d is not None and d.startswith("tree:") and v is not None:
+                    try:
+                        mst, _, mfs = clean(v).split("|", 2)
+                        mt = parse_listing(mfs)
+                        if mst == "OK" and actual["status"] == "OK":
+                            for pth in sorted(mt):
+                                if pth.endswith(".py") and isinstance(mt[pth], bytes) and isinstance(actual["tree"].get(pth), bytes) \
+                                        and mt[pth] != actual["tree"][pth]:
+                                    viol.append(("an output file does not hold the Python emitted for its source: " + pth, c,
+                                                 {"path": pth, "on_disk_tail": actual["tree"][pth][-200:].decode("utf-8", "replace"),
+                                                  "emitted_tail": mt[pth][-200:].decode("utf-8", "replace")}))
+                                    break
+                    except Exception:
+                        pass
             elif kind == "m2p":
                 d = compare_m2p(v, actual)
             else:
